@@ -5,7 +5,7 @@
    the knot with the combined statement `RecOk`) is done ONCE for section variables
      tok_ok  : token -> Prop     the tokens the parser holds (current, the attribute names and arguments, the
                                  attribute opener - and `previous` once something has been consumed)
-     rest_ok : token -> Prop     the tokens the scanner will still deliver
+     rest_ok : list token -> Prop   the LIST of tokens the scanner will still deliver (token-wise: Forall P)
      err_ok  : N -> err_at -> string -> Prop    what the first error must look like
    under five closure hypotheses that say exactly which facts about Parser.v are used:
      - a PErr is produced only by error_at (at a token the parser holds: err_ok_at), by advance (the Error token
@@ -15,7 +15,9 @@
      - tokens that are not tokens of the input are made in two places only: the Eof that `advance` synthesises once the
        input is exhausted (tok_ok_eof) and the name token of `import "p";` (token_from_string_and_line, tok_ok_import),
        both with the line of the current token.
-   Generic result: parse_error_at_ok.
+   Generic result: parse_error_at_ok_list (rest_ok is a predicate on the LIST the scanner will still deliver, so an
+   instance may speak about positions: `advance` only ever looks at its head and stops at the first Error token);
+   parse_error_at_ok is the token-wise form (rest_ok := Forall rest_ok).
 
    Instances (after the section):
      A  a predicate on lines                     -> parse_error_line_good
@@ -40,18 +42,18 @@ Create HintDb pikdb. Create HintDb piwdb. Create HintDb pifdb.
 
 Section Inv.
 (* `tok_ok`: the tokens the parser HOLDS (previous, current, attribute names / arguments, the attribute opener);
-   `rest_ok`: the tokens the scanner will still deliver; `err_ok`: what a first error must look like.
+   `rest_ok`: the list of tokens the scanner will still deliver; `err_ok`: what a first error must look like.
    tok_ok is closed under the two ways Parser.v has of making a token that is not a token of the input: the Eof that
    `advance` delivers once the input is exhausted, and the name token of `import "p";`. *)
 Variable tok_ok : token -> Prop.
-Variable rest_ok : token -> Prop.
+Variable rest_ok : list token -> Prop.
 Variable err_ok : N -> err_at -> string -> Prop.
 Hypothesis tok_ok_eof : forall t, tok_ok t -> tok_ok (mkToken TEof (tline t) []).
 Hypothesis tok_ok_import : forall f c, tok_ok c -> tok_ok (token_from_string_and_line f (tline c)).
 (* advance: a delivered token that is not an Error token becomes `current` ... *)
-Hypothesis rest_held : forall t, rest_ok t -> tk t <> TError -> tok_ok t.
+Hypothesis rest_held : forall t r, rest_ok (t :: r) -> tk t <> TError -> tok_ok t /\ rest_ok r.
 (* ... an Error token is reported at once, with its own line and text *)
-Hypothesis err_scan : forall t, rest_ok t -> tk t = TError -> err_ok (tline t) AtNothing (str_of (tsource t)).
+Hypothesis err_scan : forall t r, rest_ok (t :: r) -> tk t = TError -> err_ok (tline t) AtNothing (str_of (tsource t)).
 (* error_at: every other error is reported at a token the parser holds, with any message *)
 Hypothesis err_ok_at : forall t msg, tok_ok t -> err_ok (tline t) (at_of t) msg.
 
@@ -59,7 +61,7 @@ Definition attr_ok (a : attribute) : Prop := tok_ok (a_name a) /\ Forall tok_ok 
 Definition opt_ok {A} (P : A -> Prop) (o : option A) : Prop := match o with Some a => P a | None => True end.
 (* everything but `previous` *)
 Definition Weak (s : pstate) : Prop :=
-  tok_ok (p_cur s) /\ Forall rest_ok (p_rest s) /\ Forall attr_ok (p_attrs s) /\ opt_ok tok_ok (p_opener s).
+  tok_ok (p_cur s) /\ rest_ok (p_rest s) /\ Forall attr_ok (p_attrs s) /\ opt_ok tok_ok (p_opener s).
 Definition Good (s : pstate) : Prop := tok_ok (p_prev s) /\ Weak s.
 Definition T {A} : A -> Prop := fun _ => True.
 
@@ -175,12 +177,12 @@ Lemma advance_spec : forall c, spec (fun s => Weak s /\ p_cur s = c) advance (fu
 Proof.
   intros c s [[Hc [Hr [Ha Ho]]] E]. unfold advance. destruct (p_rest s) as [|t r] eqn:Er.
   - cbn. split; [|exact E]. split; [exact Hc|]. split; [apply tok_ok_eof; exact Hc|]. repeat split; auto.
-  - inversion Hr; subst.
-    assert (G : tok_ok t -> Outcome (fun (_ : unit) s' => Good s' /\ p_prev s' = p_cur s)
+  - subst c.
+    assert (G : tok_ok t /\ rest_ok r -> Outcome (fun (_ : unit) s' => Good s' /\ p_prev s' = p_cur s)
                   (POk (tt, mkP (p_cur s) t r (p_stm s) (p_comps s) (p_classes s) (p_attrs s) (p_opener s)))).
-    { intros Ht. cbn. split; [|reflexivity]. split; [exact Hc|]. repeat split; auto. }
-    destruct (tk t) eqn:Ek; try (apply G; apply rest_held; [assumption|rewrite Ek; discriminate]).
-    cbn. apply err_scan; assumption.
+    { intros [Ht Hr']. cbn. split; [|reflexivity]. split; [exact Hc|]. repeat split; auto. }
+    destruct (tk t) eqn:Ek; try (apply G; apply (rest_held t r Hr); rewrite Ek; discriminate).
+    cbn. eapply err_scan; eassumption.
 Qed.
 Lemma wfW_advance : wfW T advance.
 Proof.
@@ -618,28 +620,28 @@ End Step.
 Lemma knot_ok : forall fuel, RecOk (knot rules_ref fuel).
 Proof. induction fuel as [|f IH]; cbn [knot]; [apply rec_bottom_ok|apply step_ok; exact IH]. Qed.
 
-Lemma parse_ok : forall fuel toks, toks <> [] -> Forall rest_ok toks ->
+Lemma parse_ok : forall fuel toks, toks <> [] -> rest_ok toks ->
   Outcome (fun _ _ => True) (parse rules_ref fuel (init_pstate toks)).
 Proof.
-  intros fuel toks Hne Hall. destruct toks as [|t rest]; [contradiction|]. inversion Hall; subst.
+  intros fuel toks Hne Hall. destruct toks as [|t rest]; [contradiction|].
   unfold parse. unfold bind at 1. unfold advance. cbn [init_pstate p_rest p_cur p_stm p_comps p_classes p_attrs p_opener].
   set (s1 := mkP default_token t rest false [new_comp FScript] [] [] None).
-  assert (G : tok_ok t -> Outcome (fun (_ : program) (_ : pstate) => True)
+  assert (G : tok_ok t /\ rest_ok rest -> Outcome (fun (_ : program) (_ : pstate) => True)
                 (bind (r_program_loop (knot rules_ref fuel)) (fun p => check_no_attributes;;; ret p) s1)).
-  { intros Ht.
+  { intros [Ht Hrest].
     assert (Hw : Weak s1) by (repeat split; auto; constructor).
     eapply Outcome_bind; [apply (ok_prog _ (knot_ok fuel)); exact Hw|].
     intros p s2 [Hg _].
     assert (W : wf T (check_no_attributes;;; ret p)) by wfgo.
     eapply Outcome_weaken; [apply W; exact Hg|]. auto. }
-  destruct (tk t) eqn:Ek; try (apply G; apply rest_held; [assumption|rewrite Ek; discriminate]).
-  cbn. apply err_scan; assumption.
+  destruct (tk t) eqn:Ek; try (apply G; apply (rest_held t rest Hall); rewrite Ek; discriminate).
+  cbn. eapply err_scan; eassumption.
 Qed.
 
-(* THE GENERIC RESULT: on a non-empty token list all of whose tokens satisfy the predicate, the first error is
-   reported at a token that satisfies it (line and `at` part) *)
-Theorem parse_error_at_ok : forall toks l a m,
-  toks <> [] -> Forall rest_ok toks ->
+(* THE GENERIC RESULT: on a non-empty token list that satisfies the (list) predicate, the first error is
+   reported at a token that satisfies the token predicate (line and `at` part) *)
+Theorem parse_error_at_ok_list : forall toks l a m,
+  toks <> [] -> rest_ok toks ->
   parse_program toks = PErr l a m -> err_ok l a m.
 Proof.
   intros toks l a m Hne Hall H. unfold parse_program, parse_program_with, run in H.
@@ -649,6 +651,23 @@ Proof.
 Qed.
 
 End Inv.
+Print Assumptions parse_error_at_ok_list.
+
+(* the token-wise form (the predicate on what the scanner will still deliver is `Forall rest_ok`): on a non-empty
+   token list all of whose tokens satisfy the predicate, the first error is reported at a token that satisfies it *)
+Theorem parse_error_at_ok : forall (tok_ok rest_ok : token -> Prop) (err_ok : N -> err_at -> string -> Prop),
+  (forall t, tok_ok t -> tok_ok (mkToken TEof (tline t) [])) ->
+  (forall f c, tok_ok c -> tok_ok (token_from_string_and_line f (tline c))) ->
+  (forall t, rest_ok t -> tk t <> TError -> tok_ok t) ->
+  (forall t, rest_ok t -> tk t = TError -> err_ok (tline t) AtNothing (str_of (tsource t))) ->
+  (forall t msg, tok_ok t -> err_ok (tline t) (at_of t) msg) ->
+  forall toks l a m, toks <> [] -> Forall rest_ok toks -> parse_program toks = PErr l a m -> err_ok l a m.
+Proof.
+  intros tok_ok rest_ok err_ok H1 H2 H3 H4 H5 toks l a m Hne Hall H.
+  apply (parse_error_at_ok_list tok_ok (Forall rest_ok) err_ok H1 H2) with (toks := toks) (a := a) (m := m); auto.
+  - intros t r Hr Hk. inversion Hr; subst. split; [apply H3; assumption|assumption].
+  - intros t r Hr Hk. inversion Hr; subst. apply H4; assumption.
+Qed.
 Print Assumptions parse_error_at_ok.
 
 (* ------------------------------------------------------------------ *)
@@ -789,6 +808,38 @@ Proof.
   - subst a. exists t. auto.
 Qed.
 Print Assumptions parse_error_at_token.
+
+(* Instance C: POSITIONS.  `advance` hands tokens over one by one and stops at the first Error token, so the first error
+   is reported on the line of a token that has NO Error token before it (itself possibly the first Error token). *)
+Definition clean_at (toks : list token) (t : token) : Prop :=
+  exists pre post, toks = pre ++ t :: post /\ Forall (fun x => tk x <> TError) pre.
+Definition clean_line (toks : list token) (l : N) : Prop := exists t, clean_at toks t /\ tline t = l.
+
+Theorem parse_error_before_scan_error_tokens : forall toks l a m,
+  toks <> [] -> parse_program toks = PErr l a m -> clean_line toks l.
+Proof.
+  intros toks l a m Hne H.
+  set (R := fun r : list token => exists pre, toks = pre ++ r /\ Forall (fun x => tk x <> TError) pre).
+  assert (H3 : forall t r, R (t :: r) -> tk t <> TError -> clean_line toks (tline t) /\ R r).
+  { intros t r [pre [E F]] Hk. split.
+    - exists t. split; [exists pre, r; split; assumption|reflexivity].
+    - exists (pre ++ [t]). split; [rewrite <- app_assoc; exact E|].
+      apply Forall_app. split; [exact F|constructor; [exact Hk|constructor]]. }
+  assert (H4 : forall t r, R (t :: r) -> tk t = TError -> clean_line toks (tline t)).
+  { intros t r [pre [E F]] Hk. exists t. split; [exists pre, r; split; assumption|reflexivity]. }
+  assert (H0 : R toks) by (exists []; split; [reflexivity|constructor]).
+  exact (parse_error_at_ok_list (fun t => clean_line toks (tline t)) R (fun l _ _ => clean_line toks l)
+           (fun t Ht => Ht) (fun f c Hc => Hc) H3 H4 (fun t _ Ht => Ht) toks l a m Hne H0 H).
+Qed.
+Print Assumptions parse_error_before_scan_error_tokens.
+
+Theorem parse_error_before_scan_error : forall src l a m,
+  parse_source src = PErr l a m -> clean_line (scan_all src) l.
+Proof.
+  intros src l a m H. unfold parse_source in H.
+  exact (parse_error_before_scan_error_tokens _ _ _ _ (TotalityProofs.scan_all_nonempty src) H).
+Qed.
+Print Assumptions parse_error_before_scan_error.
 
 (* ------------------------------------------------------------------ *)
 (* examples: the hypotheses are satisfiable, by scanner errors, syntax errors and static ("resolve"-level) errors *)
